@@ -92,7 +92,7 @@ var fmtKinds = map[string]fmtKind{
 
 type fmtStats struct {
 	docs, skipped, compared, outOfDomain, rtOK, rtCases int
-	rt, rtTame                                        map[string]int
+	rt, rtTame                                          map[string]int
 }
 
 // runFormatBatch runs the correspondence and the direct checks for one batch of source texts.
@@ -419,54 +419,54 @@ func checkXFormat(c *Ctx) {
 
 // minimal inputs for the known deviations (DESIGN §7 R12a, R12b, R13a–R13e) and neighbours
 var fmtMinimalQ = []string{
-	`{ f(a: "\u0007") }`,                     // R12a \a
-	`{ f(a: "\u000b") }`,                     // R12a \v
-	`{ f(a: "\u007f") }`,                     // R12a \x7f
-	`{ f(a: "\u0000") }`,                     // R12a \x00
-	"{ f(a: \"\xff\") }",                     // R12a \xff (invalid UTF-8 kept raw by the lexer)
-	"{a(s:\"\t\xff\")}",                      // raw TAB is written as \t: FF after an escape is kept raw too (C12_string_value_illformed_roundtrip)
-	"{a(s:\"\x7f\xff\\n\xc3(\xe2\x82\")}",      // DEL -> \u007f, ill-formed bytes and truncated sequences after escapes
-	"{ f(a: \"\U000e0001\") }",               // R12a \U000e0001
-	`{ f(a: "\u0085") }`,                     // \u0085: fine
-	`query ($a: Int = 1 @x) { f }`,           // R12b
-	`query Q($a: Int @x(y: 2)) { f }`,        // R12b
-	`fragment F($a: Int @x) on T { f }`,      // R12b
-	"{ f(a: \"\u0378\") }", // unassigned rune: outside the isPrint domain of the model (counted, not compared)
+	`{ f(a: "\u0007") }`,                  // R12a \a
+	`{ f(a: "\u000b") }`,                  // R12a \v
+	`{ f(a: "\u007f") }`,                  // R12a \x7f
+	`{ f(a: "\u0000") }`,                  // R12a \x00
+	"{ f(a: \"\xff\") }",                  // R12a \xff (invalid UTF-8 kept raw by the lexer)
+	"{a(s:\"\t\xff\")}",                   // raw TAB is written as \t: FF after an escape is kept raw too (C12_string_value_illformed_roundtrip)
+	"{a(s:\"\x7f\xff\\n\xc3(\xe2\x82\")}", // DEL -> \u007f, ill-formed bytes and truncated sequences after escapes
+	"{ f(a: \"\U000e0001\") }",            // R12a \U000e0001
+	`{ f(a: "\u0085") }`,                  // \u0085: fine
+	`query ($a: Int = 1 @x) { f }`,        // R12b
+	`query Q($a: Int @x(y: 2)) { f }`,     // R12b
+	`fragment F($a: Int @x) on T { f }`,   // R12b
+	"{ f(a: \"\u0378\") }",                // unassigned rune: outside the isPrint domain of the model (counted, not compared)
 	`{ a: a }`, `{ f(a: """b""") }`, `{ f(a: """a "q" \ b""") }`,
 }
 
 var fmtMinimalSD = []string{
-	`"a \"\"\" b" type T { f: Int }`,                      // R13a
-	`"  lead\n" type T { f: Int }`,                        // R13b
-	`" " type T { f: Int }`,                               // R13b (only blanks)
-	`"x\n" type T { f: Int }`,                             // R13b trailing newline
-	`"\\\"\"\"" type T { f: Int }`,                        // description \""" — printed raw it reads back as """
-	`"a\rb" type T { f: Int }`,                            // CR in a description
-	`"back\\" type T { f: Int }`,                          // trailing backslash before the closing quotes
-	`"q\"" type T { f: Int }`,                             // trailing quote
-	`type T { __a: Int b: Int }`,                          // R13d
-	`schema { query: Q } schema { mutation: M }`,          // merged
+	`"a \"\"\" b" type T { f: Int }`,                       // R13a
+	`"  lead\n" type T { f: Int }`,                         // R13b
+	`" " type T { f: Int }`,                                // R13b (only blanks)
+	`"x\n" type T { f: Int }`,                              // R13b trailing newline
+	`"\\\"\"\"" type T { f: Int }`,                         // description \""" — printed raw it reads back as """
+	`"a\rb" type T { f: Int }`,                             // CR in a description
+	`"back\\" type T { f: Int }`,                           // trailing backslash before the closing quotes
+	`"q\"" type T { f: Int }`,                              // trailing quote
+	`type T { __a: Int b: Int }`,                           // R13d
+	`schema { query: Q } schema { mutation: M }`,           // merged
 	`"d1" schema { query: Q } "d2" schema { mutation: M }`, // descriptions concatenated
-	`type T { f(a: Int = "\u0007"): Int }`,                // R12a in a schema
+	`type T { f(a: Int = "\u0007"): Int }`,                 // R12a in a schema
 	`directive @d("x" a: Int "y" b: Int) on FIELD`,
-	`type T { f("d" a: Int b: Int): Int }`,                // with omitDescription the comma after a described argument is dropped: not a fixpoint
-	`type T { __a: Int }`,                                 // R13d, all fields dropped: `type T {` `}` does not parse
+	`type T { f("d" a: Int b: Int): Int }`, // with omitDescription the comma after a described argument is dropped: not a fixpoint
+	`type T { __a: Int }`,                  // R13d, all fields dropped: `type T {` `}` does not parse
 	`extend schema @a`, `extend schema { query: Q }`, `type T`, `type T implements A & B @d { f: Int }`,
 }
 
 var fmtMinimalS = []string{
-	`schema { query: Query } type Query { f: Int } type Mutation { g: Int }`,              // R13c
-	`schema { query: Query } type Query { f: Int } type Subscription { g: Int }`,          // R13c
-	`"""d""" schema { query: Q } type Q { f: Int }`,                                     // R13e
-	`"""d""" schema { query: Query } type Query { f: Int }`,                             // R13e (no block printed at all)
+	`schema { query: Query } type Query { f: Int } type Mutation { g: Int }`,     // R13c
+	`schema { query: Query } type Query { f: Int } type Subscription { g: Int }`, // R13c
+	`"""d""" schema { query: Q } type Q { f: Int }`,                              // R13e
+	`"""d""" schema { query: Query } type Query { f: Int }`,                      // R13e (no block printed at all)
 	`type Query { f: Int }`,
-	`schema { query: Query mutation: M } type Query { f: Int } type M { g: Int }`,         // block printed without `query: Query`: the reloaded schema has no query root
-	`schema { query: Q mutation: Mutation } type Q { f: Int } type Mutation { g: Int }`,   // block printed without `mutation: Mutation`: the reloaded schema has no mutation root
+	`schema { query: Query mutation: M } type Query { f: Int } type M { g: Int }`,       // block printed without `query: Query`: the reloaded schema has no query root
+	`schema { query: Q mutation: Mutation } type Q { f: Int } type Mutation { g: Int }`, // block printed without `mutation: Mutation`: the reloaded schema has no mutation root
 	`schema { query: Query subscription: S } type Query { f: Int } type S { g: Int } type Mutation { h: Int }`,
-	`"a \"\"\" b" type Query { f: Int }`,                                               // R13a
-	`"  lead\n" type Query { f: Int }`,                                                   // R13b
-	`directive @d(s: String = "\u0007") on OBJECT type Query @d { f: Int }`,              // R12a
-	`directive @d on SCHEMA schema @d { query: Query } type Query { f: Int }`,            // directives, default roots
+	`"a \"\"\" b" type Query { f: Int }`,                                      // R13a
+	`"  lead\n" type Query { f: Int }`,                                        // R13b
+	`directive @d(s: String = "\u0007") on OBJECT type Query @d { f: Int }`,   // R12a
+	`directive @d on SCHEMA schema @d { query: Query } type Query { f: Int }`, // directives, default roots
 	`directive @d on SCHEMA type Query { f: Int } extend schema @d`,
 	`type Query { f: Int } extend type Query { g: Int }`,
 }
